@@ -176,6 +176,11 @@ def make_runner(env, cfg=None):
                     if cfg.get("fixed_container") == "array":
                         value = np.array(value)
                 self.params.add(name, value)
+            if cfg.get("mutable_fixed"):
+                # a LIST-valued parameter that is not unpacked (a queue of
+                # seeds, the same for every combination) which the iteration
+                # consumes in place
+                self.params.add("queue", [11, 12, 13])
             for name, values in cfg["unpacked"]:
                 kind = cfg.get("container", {}).get(name, "list")
                 if kind == "tuples":
@@ -225,6 +230,21 @@ def make_runner(env, cfg=None):
 
         def _run_simulation(self, current_params):
             v = self._variation_of(current_params)
+            if cfg.get("mutable_fixed"):
+                q = current_params["queue"]
+                first = env.attempts.get(v, 0) == 0 or \
+                    getattr(env, "_queue_seen_run", {}).get(v) != env.run_no
+                if first:
+                    # every combination starts with the parameters the user
+                    # configured, whatever earlier combinations did to theirs
+                    if list(q) != [11, 12, 13]:
+                        env.param_errors.append(
+                            "variation %r starts with queue=%r, configured "
+                            "[11, 12, 13]" % (v, list(q)))
+                    if not hasattr(env, "_queue_seen_run"):
+                        env._queue_seen_run = {}
+                    env._queue_seen_run[v] = env.run_no
+                q.append(100 + len(q))
             clock = cfg.get("clock") or [0]
             env.clock += clock[env.clock_i % len(clock)]
             env.clock_i += 1
@@ -305,6 +325,12 @@ def make_runner(env, cfg=None):
                 return np.bool_(keep)
             return keep
 
+    if cfg.get("rep_max", 0) % 2 == 0:
+        # the user's runner INHERITS its iteration, stop rule and hooks from
+        # an intermediate base class (one family of runners sharing them)
+        class DerivedRecorder(Recorder):
+            pass
+        return DerivedRecorder()
     return Recorder()
 
 
